@@ -226,20 +226,22 @@ class NoOp(Opcode):
         pass
 
 
-def raw_unicode_escape(byte_string: bytes) -> str:
+def raw_unicode_escape(text: Union[str, bytes]) -> str:
+    """The argument of a UNICODE opcode: raw-unicode-escape text terminated by a newline. Everything
+    but printable ASCII (and the backslash itself) is written as \\uXXXX / \\UXXXXXXXX, which is the
+    only kind of escape the unpickler decodes."""
+    if isinstance(text, (bytes, bytearray)):
+        text = bytes(text).decode("utf-8")
     s = []
-    for b in byte_string:
-        if 32 <= b <= 128:
+    for char in text:
+        code = ord(char)
+        if 32 <= code < 127 and char != "\\":
             # this is printable ASCII
-            s.append(chr(b))
-        elif b == ord("\n"):
-            s.append("\\n")
-        elif b == ord("\r"):
-            s.append("\\r")
-        elif b == ord("\\"):
-            s.append("\\\\")
+            s.append(char)
+        elif code <= 0xFFFF:
+            s.append(f"\\u{code:04x}")
         else:
-            s.append(f"\\u{b:04x}")
+            s.append(f"\\U{code:08x}")
     s.append("\n")
     return "".join(s)
 
